@@ -322,9 +322,52 @@ def _covers_mem(e, var):
     return False
 
 
-def _attr_rules(ck, cg):
+def _enclosing_fors(n):
+    out = []
+    p = getattr(n, "_parent", None)
+    while p is not None and not isinstance(p, (ast.FunctionDef, ast.Module)):
+        if isinstance(p, ast.For):
+            out.append(p)
+        p = getattr(p, "_parent", None)
+    return list(reversed(out))      # outermost first
+
+
+def _covers_all_blocks(ga, acc):
+    """Does the accumulation statement `acc` see every Attributes object characterised in get_attributes?"""
+    chars = [c for c in walk_body(ga) if isinstance(c, ast.Call) and dotted(c.func) == "self.get_caracteristics" and len(c.args) == 2]
+    if not chars:
+        return False, "no call of get_caracteristics"
+    ch = chars[0]
+    obj = norm(ch.args[1])
+    ch_loops = _enclosing_fors(ch)
+    ac_loops = _enclosing_fors(acc)
+    src = norm(acc.value.value)
+    if ch_loops and ac_loops and ac_loops[-1] is ch_loops[-1]:
+        if src == obj:
+            return True, ""
+        return False, "it reads `%s`, not the object `%s` just characterised" % (src, obj)
+    # separate loop nest: must walk the complete nested collection
+    if len(ch_loops) < 2:
+        return False, "unexpected loop structure around get_caracteristics"
+    inner_list = outer_list = None
+    for n in walk_local(ch_loops[-1]):
+        if isinstance(n, ast.Call) and isinstance(n.func, ast.Attribute) and n.func.attr == "append" and n.args and norm(n.args[0]) == obj:
+            inner_list = norm(n.func.value)
+    for n in walk_local(ch_loops[0]):
+        if isinstance(n, ast.Call) and isinstance(n.func, ast.Attribute) and n.func.attr == "append" and n.args and inner_list and norm(n.args[0]) == inner_list:
+            outer_list = norm(n.func.value)
+    if len(ac_loops) >= 2 and outer_list and norm(ac_loops[-2].iter) == outer_list and norm(ac_loops[-1].iter) == norm(ac_loops[-2].target) \
+            and norm(ac_loops[-1].target) == src and not any(l in ch_loops for l in ac_loops):
+        return True, ""
+    if ac_loops and any(l is ch_loops[0] for l in ac_loops) and norm(ac_loops[-1].iter) == inner_list and norm(ac_loops[-1].target) == src:
+        return True, ""      # inner re-iteration inside the outer characterisation loop
+    it = norm(ac_loops[-1].iter) if ac_loops else "no loop"
+    return False, "it iterates `%s`, which holds only the objects of the last IR block" % it if it == inner_list else "it iterates `%s`" % it
+
+
+def _attr_rules(ck, cg, RID="R4", floor=7):
     from sa.astutil import Resolver
-    ck.rule("R4", "mem_read / mem_write / set_exception attributes over-approximate the block's memory accesses", floor=7)
+    ck.rule(RID, "mem_read / mem_write / set_exception attributes over-approximate the block's memory accesses and are accumulated over every block of the instruction", floor=floor)
     fn = cg.func("CGen.get_caracteristics")
     res = Resolver(fn)
     params = [a.arg for a in fn.args.args]
@@ -368,14 +411,14 @@ def _attr_rules(ck, cg):
     # mem_write
     g = any_gen("mem_write")
     if g is None:
-        ck.undet("R4", "CGen.get_caracteristics:mem_write", "not of the form any(<test> for dst in assignblk)")
+        ck.undet(RID, "CGen.get_caracteristics:mem_write", "not of the form any(<test> for dst in assignblk)")
         raise AnalysisError("CGen.get_caracteristics: the computation of %s.mem_write has a shape the extractor does not read" % att)
     elt, var, it, ifs = g
     it = unwrap_keys(res.expand_node(it))
-    ck.ob("R4", "CGen.get_caracteristics:mem_write:domain", norm(it) == blk and not ifs, cg.where(assigns["mem_write"][0]),
+    ck.ob(RID, "CGen.get_caracteristics:mem_write:domain", norm(it) == blk and not ifs, cg.where(assigns["mem_write"][0]),
           "mem_write is computed over `%s`%s instead of every destination of the block: a store outside that domain gets "
           "no write-fault test" % (norm(it)[:60], " with filter(s) %s" % [norm(i) for i in ifs] if ifs else ""))
-    ck.ob("R4", "CGen.get_caracteristics:mem_write:covers-every-store", _covers_mem(elt, var), cg.where(assigns["mem_write"][0]),
+    ck.ob(RID, "CGen.get_caracteristics:mem_write:covers-every-store", _covers_mem(elt, var), cg.where(assigns["mem_write"][0]),
           "mem_write is `%s`: it is not implied by `isinstance(%s, ExprMem)`, so some block storing to memory gets no "
           "fault test between its memory commit and its register commit" % (norm(elt)[:120], var))
     # mem_read
@@ -386,10 +429,10 @@ def _attr_rules(ck, cg):
     it = res.expand_node(it)
     dom_ok = isinstance(it, ast.Call) and isinstance(it.func, ast.Attribute) and it.func.attr == "get_r" and norm(it.func.value) == blk \
         and any(k.arg == "mem_read" and isinstance(k.value, ast.Constant) and k.value.value is True for k in it.keywords) and not ifs
-    ck.ob("R4", "CGen.get_caracteristics:mem_read:domain", dom_ok, cg.where(assigns["mem_read"][0]),
+    ck.ob(RID, "CGen.get_caracteristics:mem_read:domain", dom_ok, cg.where(assigns["mem_read"][0]),
           "mem_read is computed over `%s`, not over %s.get_r(mem_read=True): memory cells are not part of that read set"
           % (norm(it)[:80], blk))
-    ck.ob("R4", "CGen.get_caracteristics:mem_read:covers-every-load", _covers_mem(elt, var), cg.where(assigns["mem_read"][0]),
+    ck.ob(RID, "CGen.get_caracteristics:mem_read:covers-every-load", _covers_mem(elt, var), cg.where(assigns["mem_read"][0]),
           "mem_read is `%s`: not implied by `isinstance(%s, ExprMem)`" % (norm(elt)[:120], var))
     # accumulation per instruction
     ga = cg.func("CGen.get_attributes")
@@ -397,8 +440,14 @@ def _attr_rules(ck, cg):
         acc = [n for n in walk_body(ga) if isinstance(n, ast.AugAssign) and isinstance(n.op, ast.BitOr)
                and isinstance(n.target, ast.Attribute) and n.target.attr == flag
                and isinstance(n.value, ast.Attribute) and n.value.attr == flag]
-        ck.ob("R4", "CGen.get_attributes:accumulates:%s" % flag, bool(acc), cg.where(ga),
+        ck.ob(RID, "CGen.get_attributes:accumulates:%s" % flag, bool(acc), cg.where(ga),
               "the per-instruction attribute %s is not the union (|=) of the per-block attributes" % flag)
+        # ... over EVERY assignment block of EVERY IR block of the instruction
+        for a_ in acc:
+            cov, why = _covers_all_blocks(ga, a_)
+            ck.ob(RID, "CGen.get_attributes:accumulates-every-block:%s" % flag, cov, cg.where(a_),
+                  "the union for %s does not range over every assignment block of every IR block of the instruction: %s "
+                  "(an x86 string instruction stores in its first IR block and updates pointers in later ones)" % (flag, why))
     # who writes the attributes: Attributes.__init__, get_caracteristics, get_attributes only
     allowed = set(["Attributes.__init__", "CGen.get_caracteristics", "CGen.get_attributes"])
     for rel in ck.repo.pyfiles("miasm/jitter") + ck.repo.pyfiles("miasm/arch"):
@@ -411,7 +460,7 @@ def _attr_rules(ck, cg):
                     tgs = n.targets if isinstance(n, ast.Assign) else [n.target]
                     for t in tgs:
                         if isinstance(t, ast.Attribute) and t.attr in ("mem_read", "mem_write", "set_exception") and not (rel == CG and q in allowed):
-                            ck.ob("R4", "%s:%s:writes-%s" % (rel, q, t.attr), False, m.where(n),
+                            ck.ob(RID, "%s:%s:writes-%s" % (rel, q, t.attr), False, m.where(n),
                                   "%s overwrites the attribute %s outside the three functions that compute it" % (q, t.attr))
 
 
